@@ -808,7 +808,112 @@ def check_C09(rep, prog, tier):
     BC.run_cases(rep, prog, cases, dl, 'C09', 'validate (full and quick) is silent on archives produced by fault-free and interrupted backups')
 
 
-CHECKS = {'C09': check_C09, 'C10': check_C10, 'C01': check_C01, 'C16': check_C16, 'C18': check_C18, 'C11': check_C11, 'C12': check_C12, 'C08': check_C08, 'C05': check_C05, 'C03': check_C03, 'C04': check_C04,
+def check_C02(rep, prog, tier):
+    from .harness import backup as B
+    from . import backup_checks as BC
+    from .interp import parallel_explore
+    import itertools
+    dl = tier_deadline(tier, 480, 3000)
+    rep.bounds = {'reuse': 'basis entry and source entry of one file with solver-chosen (seconds, nanoseconds) mtimes and sizes; content changed or not',
+                  'selection': 'band-id sets drawn from 0,3,9998,9999,10000,100000 (up to 3 ids), each band open or closed',
+                  'history': 'backup(T1); backup(T2: /a rewritten, /b added with the content of /c); delete the first version; backup(T2) again; symbolic sizes and options; every completed version checked after every step'}
+    rep.assumptions += BC.COMMON_ASSUMPTIONS + [
+        'arbitrary histories are covered as an inductive step, not as a search: an operation preserves every other completed version if it never changes an existing file (C07), records only correct entries (C03/C04/C13), removes only unreferenced blocks (C05) and lists by the stitching rule (C08); one concrete bounded history is explored in addition',
+        'the property\'s premise is assumed: a content change comes with a new mtime or a new size']
+
+    def run(name, mk, judge=None):
+        res, st, fns, mods, inc = parallel_explore(prog, mk, deadline=dl, max_paths=200000, step_budget=900000)
+        rep.functions |= fns
+        rep.models |= mods
+        if res.get('samples') and len(rep.samples) < 4:
+            rep.samples += res['samples'][:1]
+        stats = dict(paths=st['paths'], queries=st['queries'], solver_s=round(st['solver_s'], 2))
+        seen = set()
+        for b in res['bad']:
+            key = 'history:%s' % b['kind']
+            if key in seen:
+                continue
+            seen.add(key)
+            sc, jf = judge(b) if judge else (None, None)
+            out, path = runner.replay(sc, 'C02_hist') if sc else ({}, '')
+            rep.violation(key, (b.get('msg') or '; '.join(b.get('problems', [])[:3]))[:600], path, jf(out) if sc else True)
+        if inc:
+            rep.inconclusive += ['%s: %s' % (name, x) for x in inc[:4]]
+            rep.add_obligation(name, 'inconclusive', stats, inc[:3])
+        elif res['bad']:
+            rep.add_obligation(name, 'violated', stats, [{k: v for k, v in b.items() if k != 'model'} for b in res['bad'][:3]])
+        else:
+            rep.add_obligation(name, 'holds', stats)
+
+    def reuse_judge(b):
+        m = b.get('model') or {}
+        sc = {'kind': 'backup', 'options': {'max_block_size': 1 << 16, 'small_file_cap': 1 << 8, 'max_entries_per_hunk': 1000},
+              'prior_files': [{'path': '/a', 'kind': 'File', 'content_len': m.get('basis_size', 1), 'content_class': 1, 'mode': 0o644,
+                               'mtime': [m.get('basis_s', 0), m.get('basis_n', 0)]}],
+              'files': [{'path': '/a', 'kind': 'File', 'content_len': m.get('new_size', 1), 'content_class': 2 if b.get('changed') else 1, 'mode': 0o644,
+                         'mtime': [m.get('new_s', 0), m.get('new_n', 0)]}]}
+        return sc, (lambda out: bool(out.get('panic')) or any(v.get('wrong_content') for v in (out.get('versions') or [])[-1:]) or not b.get('changed'))
+
+    def sel_judge(b):
+        sc = {'kind': 'select', 'bands': [{'band': i, 'state': 'closed' if b['closed'].get(i) else 'open', 'hunks': []} for i in b['ids']]}
+
+        def jf(out):
+            want_closed = max([i for i in b['ids'] if b['closed'].get(i)], default=None)
+            name = lambda i: 'b%04d' % i
+            return out.get('LatestClosed') != (name(want_closed) if want_closed is not None else out.get('LatestClosed')) or \
+                out.get('Latest') != name(max(b['ids']))
+        return sc, jf
+    run('changed content is never recorded with the previous version\'s addresses; unchanged content is reused', B.make_reuse(prog), reuse_judge)
+    pool = [0, 3, 9998, 9999, 10000, 100000]
+    sets = [list(c) for n in (1, 2, 3) for c in itertools.combinations(pool, n)]
+    if tier == 'quick':
+        sets = [s_ for s_ in sets if len(s_) <= 2] + [[3, 9999, 10000], [0, 10000, 100000]]
+    for ids in sets:
+        run('LatestClosed / Latest select the newest complete / newest version among %s' % ids, B.make_selection(prog, ids), sel_judge)
+    run('bounded history: every completed version keeps resolving to its own snapshot after every step', B.make_history(prog))
+
+
+def check_C06(rep, prog, tier):
+    from .harness import race as RC
+    from .interp import parallel_explore
+    dl = tier_deadline(tier, 480, 3000)
+    bound = 2 if tier == 'quick' else 3
+    rep.bounds = {'actors': ['backup of a tree containing a file whose content equals a garbage block', 'gc (delete_bands with no bands)'],
+                  'granularity': 'control changes hands only immediately before a storage operation',
+                  'preemption_bound': bound, 'who_starts': 'solver-chosen', 'sizes': 'symbolic'}
+    rep.assumptions += ['storage operations are atomic; each activity is deterministic between storage operations',
+                        'both activities are the real functions run from MIR in two interpreter threads; exactly one runs at a time',
+                        'store / source / hash / JSON models as in C03']
+    res, st, fns, mods, inc = parallel_explore(prog, RC.make_race(prog, bound), deadline=dl, max_paths=400000, step_budget=900000)
+    rep.functions |= fns
+    rep.models |= mods
+    rep.samples += res.get('samples', [])[:2]
+    stats = dict(paths=st['paths'], queries=st['queries'], solver_s=round(st['solver_s'], 2))
+    name = 'after every interleaving (<= %d preemptions) every complete version refers only to blocks that still exist' % bound
+    for b in res['bad']:
+        m = b.get('model') or {}
+        sa, sg = m.get('size_a', 10), m.get('size_g', 10)
+        sc = {'kind': 'race',
+              'first_tree': [{'path': '/a', 'kind': 'File', 'content_len': sa, 'content_class': 1, 'mtime': [10, 0], 'mode': 0o644}],
+              'second_tree': [{'path': '/a', 'kind': 'File', 'content_len': sa, 'content_class': 1, 'mtime': [10, 0], 'mode': 0o644},
+                              {'path': '/g', 'kind': 'File', 'content_len': sg, 'content_class': 7, 'mtime': [11, 0], 'mode': 0o644}],
+              'garbage_file': '/g', 'schedule': [a for a, v, p in b['schedule']],
+              'mirsym': {'key': b['key'], 'results': b['results'], 'schedule': [(a, v, p[-20:]) for a, v, p in b['schedule']]}}
+        out, path = runner.replay(sc, 'C06_race')
+        reproduced = any(v.get('restore_errors') or not v.get('restore_ok') for v in out.get('versions') or [])
+        rep.violation(b['key'], 'both operations finish (%s) and %s' % (b['results'], '; '.join(b['problems'][:2])), path, reproduced)
+    if inc:
+        rep.inconclusive += ['race: ' + x for x in inc[:4]]
+        rep.add_obligation(name, 'inconclusive', stats, inc[:3])
+    elif res['bad']:
+        rep.add_obligation(name, 'violated (see known findings)' if all(
+            any(k.get('key') == b['key'] and k.get('status') == 'known' for k in rep.known) for b in res['bad']) else 'violated',
+            stats, [{k: v for k, v in b.items() if k not in ('model', 'schedule')} for b in res['bad'][:3]])
+    else:
+        rep.add_obligation(name, 'holds', stats)
+
+
+CHECKS = {'C06': check_C06, 'C02': check_C02, 'C09': check_C09, 'C10': check_C10, 'C01': check_C01, 'C16': check_C16, 'C18': check_C18, 'C11': check_C11, 'C12': check_C12, 'C08': check_C08, 'C05': check_C05, 'C03': check_C03, 'C04': check_C04,
           'C13': check_C13, 'C14': check_C14, 'C07': check_C07}
 
 
